@@ -158,7 +158,7 @@ def string_of(mol, rnd, route="graph"):
         from ..lib import call, graph_from_molfile_text
         from ..render import render_v2000
 
-        style = {"seed": rnd.randrange(2**31), "per_line": rnd.choice([1, 3, 8]), "vary_per_line": rnd.random() < 0.5, "chg_by": "mline", "shuffle_props": True, "interleave": rnd.random() < 0.5}
+        style = {"seed": rnd.randrange(2**31), "per_line": rnd.choice([1, 3, 8]), "vary_per_line": rnd.random() < 0.5, "chg_by": rnd.choice(["mline", "auto"]), "stale_codes": rnd.random() < 0.5, "shuffle_props": True, "interleave": rnd.random() < 0.5}
         return pipeline(call("read", graph_from_molfile_text, render_v2000(pm, None, style)))
     if route == "v3000" and in_range:
         from ..lib import call, graph_from_molfile_text
@@ -199,6 +199,20 @@ def check(case, stats):
     sa = string_of(a, rnd, route)
     sb = string_of(b, rnd, route)
     stats.label("route:" + route)
+    if route != "graph":
+        # a file whose string is the string of ANOTHER molecule is a collision as well: decode the
+        # string with the reference reader and compare with what was rendered
+        from .. import refgrammar as rg
+
+        for m0, s0 in ((a, sa), (b, sb)):
+            try:
+                ref = rg.read(s0)
+            except (rg.Rejected, ValueError):
+                continue  # not a sentence: C05's business
+            atoms = [[z, ref["attrs"].get(k, {}).get("mass", 0), ref["attrs"].get(k, {}).get("rad", 0), 0, 0.0, 0.0, 0.0] for k, z in enumerate(ref["atoms"])]
+            decoded = Mol(atoms, [[*sorted(e), 1] for e in ref["bonds"]], "decoded")
+            if iso_of(m0, decoded) is False and pipeline(mol_to_graph(decoded)) == s0:
+                raise Violation("collision-across-formats", f"the {route} rendering of {m0.brief()} gets the string {s0[:160]!r}, which is the string of the non-isomorphic molecule {decoded.brief()}", string=s0[:500])
     stats.evaluated(2)
     stats.label("kind:" + case["kind"] + (":" + case.get("mutation", "") if "mutation" in case else ""))
     same = iso_of(a, b) if (sa == sb or a.n <= 40) else False
